@@ -375,6 +375,16 @@ func verifSpecCL(lowered string) primitive.ConsistencyLevel {
 // tokv(step, k) = MinInt64 + k*step, written as a recursion so that the proofs stay in linear arithmetic
 //@ specfn tokv(step, k) = ite(k <= 0, -9223372036854775808, tokv(step, k - 1) + step)
 
+// C10 "tokens assigned in address order": the order the nodes are sorted by is the byte-wise order of their IP
+// addresses (not, for instance, the order of their text forms); equal addresses are ordered by zone.
+// A lemma about the comparator: callers keep evaluating its body.
+//@ func proxy.compareIPAddr [C10]
+//@   lemma
+//@   requires a != nil && b != nil
+//@   ensures byte-order: a != b && bytes.Compare(a.IP, b.IP) != 0 ==> result == bytes.Compare(a.IP, b.IP)
+//@   ensures same-address-object: a == b ==> result == 0
+//@   modifies nothing
+
 //@ loop proxy.Proxy.buildNodes #1
 //@   invariant err == nil && p.localNode != nil && fresh(p.localNode) && p.localNode.addr == localAddr && p.localNode.dc == localDC && p.localNode.tokens == localTokens
 //@   invariant len(nodes) >= 1 && len(nodes) <= rangeindex + 2 && fresh(nodes) && sliceoff(nodes) == 0 && nodes[0] == p.localNode && (numPeers > 0 ==> localAddr != nil)
@@ -681,7 +691,7 @@ func verifSpecCL(lowered string) primitive.ConsistencyLevel {
 //@   ensures forwarded-frame-is-new: $reqStarted == old($reqStarted) + 1 && typeis($lastReq.frm, *frame.RawFrame) ==> fresh(as($lastReq.frm, *frame.RawFrame)) [C03]
 //@   ensures forwarded-frame-owns-its-body: $reqStarted == old($reqStarted) + 1 && typeis($lastReq.frm, *frame.RawFrame) ==> len(as($lastReq.frm, *frame.RawFrame).Body) == 0 || fresh(as($lastReq.frm, *frame.RawFrame).Body) [C03]
 //@   ensures only-register-registers: !($rxBodyTried && $rxBodyOK && typeis($rxMsg, *message.Register)) ==> c.$registered == old(c.$registered)
-//@   modifies *, c.codec, c.compression, $rxCodec, c.preparedSystemQuery[*], c.$registered, c.$sent, c.$executed, $reqStarted, $sends, $convertedBody, $lastReq, $lastMsg, $lastStream, $lastVersion, $lastClient, $qhHandled, $selReached, $selDot, $selErr, $selQual, $selTable, $exId, $exLocal, $useTried, $useOK, $useKs, $useVersion, $useCompression, $rxDecoded, $rxVersion, $rxStream, $rxBodyTried, $rxBodyOK, $rxMsg, any(proxycore.ClientConn).inflight, any(proxycore.pendingRequests).$has, any(proxycore.pendingRequests).$tag, any(proxycore.pendingRequests).$val
+//@   modifies *, c.codec, c.compression, $rxCodec, $hkKsOK, c.preparedSystemQuery[*], c.$registered, c.$sent, c.$executed, $reqStarted, $sends, $convertedBody, $lastReq, $lastMsg, $lastStream, $lastVersion, $lastClient, $qhHandled, $selReached, $selDot, $selErr, $selQual, $selTable, $exId, $exLocal, $useTried, $useOK, $useKs, $useVersion, $useCompression, $rxDecoded, $rxVersion, $rxStream, $rxBodyTried, $rxBodyOK, $rxMsg, any(proxycore.ClientConn).inflight, any(proxycore.pendingRequests).$has, any(proxycore.pendingRequests).$tag, any(proxycore.pendingRequests).$val
 
 // ---------------------------------------------------------------------------------------------
 // C01 / C04 / C05: the request object as a monitor
